@@ -12,8 +12,8 @@
 (*              terminator uses CompareAndDelete as well                    *)
 (* Termination (Node.Kill of a sleeping process):                           *)
 (*   kill.zombie (state word leaves the alive states), unreg.delete         *)
-(*   (processes.Delete), unreg.name ("if p.registered { names.Delete(p.name)*)
-(*   }" - reads the flag and the name field)                                *)
+(*   (processes.Delete), unreg.release (the cleanup of the name: reads the  *)
+(*   flag and the name field, deletes the table entry)                      *)
 (* Code anchors: node/node.go RegisterName, Kill, unregisterProcess.        *)
 (***************************************************************************)
 EXTENDS Naturals, FiniteSets, Sequences, TLC
@@ -86,12 +86,12 @@ TStart == tpc = "start" /\ tpc' = "kill.zombie" /\ UNCHANGED <<inTable, alive, r
 TSkip == tpc = "start" /\ tpc' = "skipped" /\ UNCHANGED <<inTable, alive, registered, pname, names, gpc, gres>>
 TSwap == tpc = "kill.zombie" /\ alive' = [alive EXCEPT ![Victim] = FALSE] /\ tpc' = "unreg.delete"
          /\ UNCHANGED <<inTable, registered, pname, names, gpc, gres>>
-TDelete == tpc = "unreg.delete" /\ inTable' = [inTable EXCEPT ![Victim] = FALSE] /\ tpc' = "unreg.name"
+TDelete == tpc = "unreg.delete" /\ inTable' = [inTable EXCEPT ![Victim] = FALSE] /\ tpc' = "unreg.release"
            /\ UNCHANGED <<alive, registered, pname, names, gpc, gres>>
 \* as pinned: if p.registered { names.Delete(p.name) } - a plain delete, whoever owns that entry;
 \* repaired: names.CompareAndDelete(p.name, p) - only the victim's own entry
 TName ==
-  /\ tpc = "unreg.name"
+  /\ tpc = "unreg.release"
   /\ names' = IF registered[Victim] /\ pname[Victim] # "" /\ (~Fix_NameLeak \/ names[pname[Victim]] = Victim)
                THEN [names EXCEPT ![pname[Victim]] = ""] ELSE names
   /\ tpc' = "done"
